@@ -12,7 +12,7 @@ import clif  # noqa: E402
 TVDUMP = "/verif/.target/tvdump/debug/tvdump"
 
 
-def one_config(path, rm, tier, env):
+def one_config(path, rm, tier, env, many=False):
     import hashlib
     m = {}
     try:
@@ -25,7 +25,7 @@ def one_config(path, rm, tier, env):
             return dict(verdict="unsupported", why="simulator IR/JIT build failed: " + p.stderr[-120:])
         layout = json.loads(out[i + 7:])
         m["ir_hash"] = hashlib.md5(out[:i].encode()).hexdigest()[:12]
-        m.update(clif.check_design(out[:i], layout, rm["rtl"], timeout_ms=20000 if tier == "quick" else 120000))
+        m.update(clif.check_design(out[:i], layout, rm["rtl"], timeout_ms=20000 if tier == "quick" else (40000 if many else 120000)))
     except clif.Unsupported as e:
         m.update(verdict="unsupported", why=str(e)[:120])
     except clif.z3.Z3Exception as e:
@@ -75,7 +75,7 @@ def main():
         t0 = time.time()
         per = []
         for (cname, env) in configs:
-            r = one_config(path, rm, tier, env)
+            r = one_config(path, rm, tier, env, many=len(configs) > 1)
             r["config"] = cname
             per.append(r)
             if r["verdict"] == "differs":
